@@ -19,7 +19,6 @@ Definition triple := (sid * Z * cid)%type.
 Record group := mkGroup {
   g_members : list member;
   g_owners : list triple;
-  g_keys : list sid;        (* streams that have an entry in c.subscribers *)
   g_epoch : N
 }.
 
@@ -79,9 +78,6 @@ Section WithParts.
     | x :: r => if mem_n x r then dedup r else x :: dedup r
     end.
 
-  Definition add_keys (ks : list sid) (ss : list sid) : list sid :=
-    fold_left (fun ks s => if mem_n s ks then ks else ks ++ [s]) ss ks.
-
   Inductive gres := GOk (g : group) | GRefused | GNotMember.
 
   (* AddMember(consumer, streams, epoch) -- the caller has checked that it is not a member *)
@@ -89,7 +85,7 @@ Section WithParts.
     if (e <? g_epoch g)%N then GRefused else
     let ss := sort_n (dedup streams) in
     let ms := g_members g ++ [mkMember c ss] in
-    GOk (mkGroup ms (fold_left (fun ow s => balance s ms ow) ss (g_owners g)) (add_keys (g_keys g) ss) e).
+    GOk (mkGroup ms (fold_left (fun ow s => balance s ms ow) ss (g_owners g)) e).
 
   Definition has_assignment (c : cid) (s : sid) (ow : list triple) : bool :=
     existsb (fun t => N.eqb (t_stream t) s && N.eqb (t_cons t) c) ow.
@@ -104,24 +100,24 @@ Section WithParts.
       let ow0 := g_owners g in
       let ow1 := fold_left (fun ow s => if has_assignment c s ow0 then balance s ms ow else ow)
                            (m_streams lv) ow0 in
-      GOk (mkGroup ms (filter (fun t => negb (N.eqb (t_cons t) c)) ow1) (g_keys g) e)
+      GOk (mkGroup ms (filter (fun t => negb (N.eqb (t_cons t) c)) ow1) e)
     end.
 
   (* StreamDeleted(stream, epoch) *)
   Definition stream_deleted (g : group) (s : sid) (e : N) : gres :=
     if (e <? g_epoch g)%N then GRefused else
-    (* no member subscribes to it (no heap, or an empty one): nothing changes, the heap entry goes *)
+    (* no member subscribes to it (no subscriber heap, or an empty one): nothing changes.  Which
+       streams have a heap is therefore not part of the state. *)
     if negb (existsb (subscribes s) (g_members g))
-    then GOk (mkGroup (g_members g) (g_owners g) (filter (fun x => negb (N.eqb x s)) (g_keys g)) (g_epoch g)) else
+    then GOk g else
     let subs := filter (subscribes s) (g_members g) in
     let ms := map (fun m => mkMember (m_id m) (filter (fun x => negb (N.eqb x s)) (m_streams m))) (g_members g) in
     let others := sort_n (dedup (concat (map (fun m => filter (fun x => negb (N.eqb x s)) (m_streams m)) subs))) in
     let ow0 := filter (fun t => negb (N.eqb (t_stream t) s)) (g_owners g) in
-    GOk (mkGroup ms (fold_left (fun ow x => balance x ms ow) others ow0)
-                 (filter (fun x => negb (N.eqb x s)) (g_keys g)) e).
+    GOk (mkGroup ms (fold_left (fun ow x => balance x ms ow) others ow0) e).
 End WithParts.
 
-Definition new_group : group := mkGroup [] [] [] 0%N.
+Definition new_group : group := mkGroup [] [] 0%N.
 
 (* what GetAssignments hands to consumer c for stream s *)
 Definition assignment_of (g : group) (c : cid) (s : sid) : list Z :=
